@@ -1,6 +1,6 @@
 (* Props_C13.v — C13: restricting the spectral grid never changes the values computed on it. *)
 From Coq Require Import Reals List Lra.
-From TV Require Import Num ListNum ListNumR Model_C01 Proofs_C01 Proofs_C03 Model_C13 Proofs_C13.
+From TV Require Import Num ListNum ListNumR Model_C01 Proofs_C01 Proofs_C03 Model_C13 Proofs_C13 Model_C05.
 Import ListNotations.
 Local Open Scope R_scope.
 
@@ -63,3 +63,16 @@ Theorem C13_native_grid : forall (gs : list (list R)) g, In g gs ->
   In (@native_grid R gs) gs /\ (length g <= length (@native_grid R gs))%nat.
 Proof. exact native_grid_longest. Qed.
 Print Assumptions C13_native_grid.
+
+(* (e) binning the restricted result equals binning the full result: the overlap-weighted mean of a target bin [a,b]
+   (which is what the flux binner computes: C05_flux_is_overlap_mean) depends only on the native bins that overlap it.
+   Native rows without overlap may be dropped at either end (the clip), and the remaining rows may change in any way
+   that keeps their overlap with [a,b] and their value (the end rows of the clipped grid get other mid-point widths).
+   The premises are evaluated by the driver on every generated instance that satisfies the property's width condition. *)
+Theorem C13_binning_local : forall (a b : R) (pre mid post pre' mid' post' : list (@nrow R)),
+  Forall (fun r => @ov R RNum a b r = 0) pre -> Forall (fun r => @ov R RNum a b r = 0) post ->
+  Forall (fun r => @ov R RNum a b r = 0) pre' -> Forall (fun r => @ov R RNum a b r = 0) post' ->
+  Forall2 (same_for a b) mid mid' ->
+  @overlap_mean R RNum (pre ++ mid ++ post) a b = @overlap_mean R RNum (pre' ++ mid' ++ post') a b.
+Proof. exact overlap_mean_local. Qed.
+Print Assumptions C13_binning_local.
